@@ -33,7 +33,7 @@ def _private_closure(prog, C, roots):
 def d1(run: Run, prog: Program):
     """Derived series see only the window."""
     fam = [c for c in prog.classes.values() if any(b.name == "Data" for b in c.mro)]
-    run.floor("Data family", len(fam), 2)
+    run.floor("Data family", len(fam), 2, hard=True)
     n = 0
     for C in sorted(fam, key=lambda c: c.name):
         roots = [m_ for m_ in (prog.lookup(C, "__init__"), prog.lookup(C, "set_window"))
@@ -148,8 +148,16 @@ def d3(run: Run, prog: Program):
             g.name.startswith("_")]
 
     def window_names(f):
-        # the parameter(s) through which the window dict reaches f
-        return {p_ for p_ in f.params if "window" in p_}
+        # the parameter(s) through which the window dict reaches f: whatever is
+        # subscripted with one of the bound keys
+        out = set()
+        for n_ in ast.walk(f.node):
+            if isinstance(n_, ast.Subscript) and isinstance(n_.value, ast.Name) and \
+                    n_.value.id in f.params and isinstance(n_.slice, ast.Constant) and \
+                    isinstance(n_.slice.value, str) and \
+                    n_.slice.value.endswith(("_min", "_max")):
+                out.add(n_.value.id)
+        return out
 
     def key_aliases(f):
         """local name -> window key, for `a = w["k"]` and tuple forms"""
@@ -207,9 +215,13 @@ def d3(run: Run, prog: Program):
             n += 1
             axis, kind = key.rsplit("_", 1)
             pairs.setdefault(axis, {})[kind] = (op, c.lineno)
+        from .idioms import inline_locals as _il, single_defs as _sd
+        _defs = {k_: v_ for k_, v_ in _sd(f.node).items()
+                 if any(isinstance(c_, ast.Compare) for c_ in ast.walk(v_))}
         for r in ast.walk(f.node):
             if isinstance(r, ast.Return) and r.value is not None:
-                ks = {bk(x) for c in ast.walk(r.value) if isinstance(c, ast.Compare)
+                rv = _il(f.node, r.value, defs=_defs)
+                ks = {bk(x) for c in ast.walk(rv) if isinstance(c, ast.Compare)
                       for x in [c.left] + c.comparators} - {None}
                 for k in ks:
                     ret_axes.setdefault(f.name, set()).add(k.rsplit("_", 1)[0])
@@ -338,8 +350,21 @@ def d5(run: Run, prog: Program):
             if isinstance(a, ast.Assign) and isinstance(a.targets[0], ast.Name) and \
                     ast.unparse(a.value) in obs:
                 obs.add(a.targets[0].id)
-        loopvars = {n.target.id for n in ast.walk(m.node)
-                    if isinstance(n, ast.For) and isinstance(n.target, ast.Name)}
+        # loop variables are named after what they iterate over, so that two
+        # loops over the same sequence give the same selector text
+        loopvars = {}
+        for n in ast.walk(m.node):
+            if not isinstance(n, (ast.For, ast.comprehension)):
+                continue
+            it = inline_locals(m.node, n.iter)
+            tg = n.target
+            if isinstance(it, ast.Call) and isinstance(it.func, ast.Name) and \
+                    it.func.id == "enumerate" and it.args and \
+                    isinstance(tg, ast.Tuple) and len(tg.elts) == 2:
+                it, tg = it.args[0], tg.elts[1]
+            if isinstance(tg, ast.Name):
+                src = ast.unparse(_rename(it, sn, "self")).replace(" ", "")
+                loopvars[tg.id] = f"EACH[{src}]"
         out = set()
         for sub in ast.walk(m.node):
             if isinstance(sub, ast.Subscript) and isinstance(sub.ctx, ast.Load) and \
@@ -353,10 +378,8 @@ def d5(run: Run, prog: Program):
                             elts[-1].step is None:
                         elts.pop()
                     sl = elts[0] if len(elts) == 1 else ast.Tuple(elts=elts, ctx=ast.Load())
-                used = [v for v in sorted(loopvars)
-                        if any(isinstance(x, ast.Name) and x.id == v for x in ast.walk(sl))]
-                for k, v in enumerate(used):
-                    sl = _rename(sl, v, f"_i{k}")
+                for v, tok in loopvars.items():
+                    sl = _rename(sl, v, tok)
                 # `self` may be spelled differently in the two methods
                 sl = _rename(sl, sn, "self")
                 out.add(ast.unparse(sl).replace(" ", ""))
